@@ -73,7 +73,8 @@ def report(chk, pid, bad, tags, backend):
         chk.violation(sig, b, what)
 
 
-def run(chk: core.Check, pid: str, backend: str | None = None, quick_models: int = 400, thorough_models: int = 6000):
+def run(chk: core.Check, pid: str, backend: str | None = None, quick_models: int = 400, thorough_models: int = 6000,
+        layout: bool = False):
     prof = PROFILE[pid]
     backend = backend or prof["backend"]
     recs = []
@@ -117,6 +118,14 @@ def run(chk: core.Check, pid: str, backend: str | None = None, quick_models: int
     chk.extra.setdefault("structural_corpus", []).append({"backend": backend, **stats, "mismatch_records": len(bad)})
     if stats["compared"] == 0:
         raise core.MachineryFailure("structural corpus: nothing compared")
+    if layout:
+        from .. import layoutcase
+        lrecs = recs[: (60 if chk.tier == "quick" else 400)]
+        lst, lbad = layoutcase.replay(lrecs, backend, chk.nproc, chk.seed, workdir)
+        chk.extra.setdefault("layout_cases", []).append({"backend": backend, **lst, "mismatch_records": len(lbad)})
+        for b in lbad:
+            sig = f"{pid}:{backend}:{b['tag']}:{b.get('kind', b.get('fn', ''))}:model={model_sig(b.get('text', ''))}"
+            chk.violation(sig, b, f"{backend} {b['tag']}: " + str({k: v for k, v in b.items() if k not in ('text', 'tag', 'backend')})[:260])
     chk.sample({"model_text": modelcase.render_text(recs[0]["blocks"]), "input": recs[0]["cases"][0]["input"],
                 "expected": recs[0]["cases"][0]["expect"]})
     report(chk, pid, bad, prof["tags"], backend)
